@@ -47,7 +47,21 @@ type resvVersion struct {
 	from, to int
 }
 
+type oppReq struct{ cidr, owner string }
+
+// queueOpportunist asks the OnStep hook to let another host claim cidr (see oracle.checkAffinities).
+func (w *world) queueOpportunist(cidr, owner string) {
+	for _, q := range w.oppQueue {
+		if q.cidr == cidr {
+			return
+		}
+	}
+	w.oppQueue = append(w.oppQueue, oppReq{cidr, owner})
+}
+
 type world struct {
+	oppQueue   []oppReq
+	reclaiming map[string]string // actor -> block it has marked for deletion on another host's behalf (directed stall)
 	r   *core.R
 	s   *sched.Sched
 	st  *store.Store
@@ -287,7 +301,7 @@ func mustCIDR(s string) *net.IPNet {
 }
 
 func newWorld(r *core.R) *world {
-	w := &world{r: r, actors: map[string]*actorState{}, hostLabels: map[string]map[string]string{}, t0: time.Now()}
+	w := &world{r: r, reclaiming: map[string]string{}, actors: map[string]*actorState{}, hostLabels: map[string]map[string]string{}, t0: time.Now()}
 	w.s = sched.New(r)
 	w.st = store.New(r, w.s)
 	src := r.Src
